@@ -45,6 +45,14 @@ func (ld *Loaded) staticScans(id string) []*FuncResult {
 			out = append(out, ld.lockWrapperScan(fd))
 			continue
 		}
+		if has && fd.Kind == "cellfresh" {
+			out = append(out, ld.cellFreshScan(fd))
+			continue
+		}
+		if has && fd.Kind == "methods" {
+			out = append(out, ld.methodsScan(fd))
+			continue
+		}
 		if has && fd.Kind == "nouse" {
 			out = append(out, ld.nouseScan(fd))
 			continue
@@ -416,6 +424,124 @@ func (ld *Loaded) nouseScan(fd *FieldDecl) *FuncResult {
 	}
 	if n == 0 {
 		o.Detail += "; FAILS: no such call"
+	}
+	return &FuncResult{Key: "static:" + o.Name, Obls: []*Obligation{o}}
+}
+
+// cellFreshScan: "cellfresh f: after "callee" argument i" - the argument is the address of a local
+// variable cell handed over to the callee (which keeps the pointer, e.g. a pool); the cell must
+// not be stored to again while it is the same incarnation: no store to it is reachable from the
+// call without passing through the allocation of the variable again.
+func (ld *Loaded) cellFreshScan(fd *FieldDecl) *FuncResult {
+	o := &Obligation{Name: shortStem(fd.Pkg, fd.Type) + "#alias:cell_not_reused_after_" + sanitize(fd.Field), Kind: "frame", Static: true, Props: fd.Props}
+	key := qualifyFuncName(fd.Type, fd.Pkg)
+	var argi int
+	fmt.Sscanf(fd.Arg, "%d", &argi)
+	var bad []string
+	n := 0
+	for _, fn := range ld.fnByKey[key] {
+		for _, b := range fn.Blocks {
+			for i, in := range b.Instrs {
+				call, ok := in.(*ssa.Call)
+				if !ok {
+					continue
+				}
+				hit := false
+				for _, nme := range callNames(call) {
+					if nme == fd.Field || strings.HasSuffix(nme, "."+fd.Field) {
+						hit = true
+					}
+				}
+				if !hit || argi >= len(call.Call.Args) {
+					continue
+				}
+				n++
+				cell, ok := call.Call.Args[argi].(*ssa.Alloc)
+				if !ok {
+					bad = append(bad, "argument is not the address of a local variable: "+call.String())
+					continue
+				}
+				// instruction-level reachability from the call, cut at the allocation
+				seen := map[*ssa.BasicBlock]bool{}
+				var walk func(bb *ssa.BasicBlock, from int)
+				walk = func(bb *ssa.BasicBlock, from int) {
+					for j := from; j < len(bb.Instrs); j++ {
+						if bb.Instrs[j] == ssa.Instruction(cell) {
+							return // a new incarnation of the variable
+						}
+						if st, ok := bb.Instrs[j].(*ssa.Store); ok && st.Addr == ssa.Value(cell) {
+							bad = append(bad, fmt.Sprintf("the variable handed to %s is written again: %s", fd.Field, st))
+							return
+						}
+					}
+					for _, s := range bb.Succs {
+						if !seen[s] {
+							seen[s] = true
+							walk(s, 0)
+						}
+					}
+				}
+				walk(b, i+1)
+			}
+		}
+	}
+	if n == 0 {
+		bad = append(bad, "no call of "+fd.Field+" found")
+	}
+	sort.Strings(bad)
+	o.StaticOK = len(bad) == 0
+	o.Detail = fmt.Sprintf("in %s the variable whose address is argument %d of %s is not written again after the call (%d sites)", fd.Type, argi, fd.Field, n)
+	if len(bad) > 0 {
+		o.Detail += "; FAILS: " + strings.Join(bad, " | ")
+	}
+	return &FuncResult{Key: "static:" + o.Name, Obls: []*Obligation{o}}
+}
+
+// methodsScan: "methods T: M1 M2" - the method set of *T (declared methods, not promoted ones) is
+// exactly the listed one: a method added later (which consumers may reach through an interface
+// assertion) is reported until it is put under contract and listed.
+func (ld *Loaded) methodsScan(fd *FieldDecl) *FuncResult {
+	o := &Obligation{Name: shortStem(fd.Pkg, fd.Type) + "#frame:methods", Kind: "frame", Static: true, Props: fd.Props}
+	want := map[string]bool{}
+	for _, m := range strings.Fields(fd.Arg) {
+		want[m] = true
+	}
+	var bad []string
+	found := false
+	for _, p := range ld.prog.AllPackages() {
+		if p.Pkg.Path() != fd.Pkg {
+			continue
+		}
+		obj := p.Pkg.Scope().Lookup(fd.Type)
+		if obj == nil {
+			continue
+		}
+		named, ok := obj.Type().(*types.Named)
+		if !ok {
+			continue
+		}
+		found = true
+		have := map[string]bool{}
+		for i := 0; i < named.NumMethods(); i++ {
+			have[named.Method(i).Name()] = true
+			if !want[named.Method(i).Name()] {
+				bad = append(bad, "method "+named.Method(i).Name()+" is not listed (no contract covers it)")
+			}
+		}
+		for m := range want {
+			if !have[m] {
+				bad = append(bad, "listed method "+m+" does not exist")
+			}
+		}
+	}
+	if !found {
+		bad = append(bad, "type not found")
+	}
+	sort.Strings(bad)
+	o.StaticOK = len(bad) == 0
+	o.Detail = fmt.Sprintf("the declared methods of %s are exactly: %s", fd.Type, fd.Arg)
+	if len(bad) > 0 {
+		o.Detail += "; FAILS: " + strings.Join(bad, " | ")
 	}
 	return &FuncResult{Key: "static:" + o.Name, Obls: []*Obligation{o}}
 }
